@@ -93,6 +93,9 @@ func (o retOutcome) isPotentialSuccess() bool {
 	if len(o.Sentinels) == 0 {
 		return true
 	}
+	if o.NonNil {
+		return false
+	}
 	for _, s := range o.Sentinels {
 		if s == "nil" {
 			return true
